@@ -131,8 +131,9 @@ Ops(kind) ==
            {Call("step", Arg(r, Empty)) : r \in Runs} \cup {Call("signal", Arg(r, Empty)) : r \in Runs}
       [] OTHER -> {}
 
-\* the order in which the runtime iterates a two-element map: 1 = (first, second), 2 = (second, first)
-Orders == {1, 2}
+\* the order in which the runtime iterates a two-element map: 1 = (first, second), 2 = (second, first);
+\* only the kinds whose code ranges over a map of the argument / of the compared schema have the choice
+Orders(kind) == IF kind \in {"mapcoll", "enum"} THEN {1, 2} ELSE {1}
 
 \* ------------------------------------------------------------------ Pure: the required result
 \* The set of results the property admits for (schema, op, arg).  A singleton except where the
@@ -280,7 +281,7 @@ Entry(c) ==
 
 Start(g) ==
     /\ At(g, "idle") /\ ncalls[g] < MaxCalls
-    /\ \E c \in Ops(K) : \E ord \in Orders :
+    /\ \E c \in Ops(K) : \E ord \in Orders(K) :
           /\ cur' = [cur EXCEPT ![g] = c]
           /\ loc' = [loc EXCEPT ![g] = [NoLoc EXCEPT !.ord = ord]]
           /\ argmem' = [argmem EXCEPT ![g] = c.arg.m]
